@@ -421,6 +421,15 @@ var reasons = []struct {
 }
 
 func reasonName(err error) string {
+	// an error raised while evaluating a reference is wrapped again at the API boundary: its Reason() is the
+	// inner ucfg.Error; the kind of failure is the innermost reason
+	for i := 0; i < 8; i++ {
+		inner, ok := err.(ucfg.Error)
+		if !ok || inner.Reason() == nil {
+			break
+		}
+		err = inner.Reason()
+	}
 	for _, r := range reasons {
 		if err == r.err {
 			return r.name
